@@ -3585,16 +3585,21 @@ class State:
             ):
                 self.burn_card()
 
-            if not self.card_burning_status:
-                if Automation.HOLE_DEALING in self.automations:
-                    while any(self.hole_dealing_statuses):
-                        self.deal_hole()
-
-                if (
-                        Automation.BOARD_DEALING in self.automations
-                        and any(self.board_dealing_counts)
+            if Automation.HOLE_DEALING in self.automations:
+                while (
+                        not self.card_burning_status
+                        and any(self.hole_dealing_statuses)
+                        and not any(self.standing_pat_or_discarding_statuses)
                 ):
-                    self.deal_board()
+                    self.deal_hole()
+
+            if (
+                    Automation.BOARD_DEALING in self.automations
+                    and not self.card_burning_status
+                    and any(self.board_dealing_counts)
+                    and not any(self.standing_pat_or_discarding_statuses)
+            ):
+                self.deal_board()
 
     def _end_dealing(self) -> None:
         assert not self.card_burning_status
